@@ -113,9 +113,9 @@ func fromVal(v gen.Val, t string) rv {
 // evalCtx carries per-row evaluation state.
 type evalCtx struct {
 	row    gen.Row
-	sawErr bool   // an error / out-of-domain / non-finite value occurred somewhere: only the weak oracle applies
-	why    string // first reason
-	diffFn bool   // a differential (Execute-defined) function value was used
+	sawErr bool         // an error / out-of-domain / non-finite value occurred somewhere: only the weak oracle applies
+	why    string       // first reason
+	diffFn bool         // a differential (Execute-defined) function value was used
 	tr     map[*Node]rv // optional trace: value of every node
 }
 
@@ -206,6 +206,9 @@ func (c *evalCtx) eval1(n *Node) rv {
 		}
 		if math.IsNaN(f) || math.IsInf(f, 0) || math.Abs(f) > 1e15 {
 			return c.fail("non-finite or huge arithmetic result")
+		}
+		if f == 0 {
+			f = 0 // no negative zero: its sign is not part of the property
 		}
 		return rv{k: 'n', f: f, isInt: isInt && f == math.Trunc(f)}
 	case "cmp":
